@@ -344,23 +344,29 @@ def io_arg(capture):
 def run_py(case):
     action, task, exc = _mods()
     fn = make_callable(case)
-    lo, le = Rec(), Rec()
-    if case.get('direct'):
-        # PythonAction.execute called directly with live stream objects that are *not* sys.stdout/sys.stderr
-        t = task.Task('t', [fn], verbosity=case.get('v'), io=io_arg(case.get('capture', True)))
-        act = t.actions[0]
-        t.init_options()
-        with Swapped() as sw:
-            v = case.get('v')
-            live = (None, None) if v == 0 else (None, le) if v == 1 else (lo, le)
-            ret, raised = call(lambda: act.execute(*live))
-            ident = sw.identity()
+    if case.get('notask'):
+        act = action.PythonAction(fn[0], fn[1]) if isinstance(fn, tuple) else action.PythonAction(fn)
+        t = None
     else:
         t = task.Task('t', [fn], verbosity=case.get('v'), io=io_arg(case.get('capture', True)))
         act = t.actions[0]
-        with Swapped() as sw:
-            ret, raised = call(lambda: t.execute(task.Stream(case.get('v'))))
-            ident = sw.identity()
+    # `repeat`: the same action object is executed again; every execution starts from fresh recorders and
+    # must show only its own text
+    for _ in range(max(1, case.get('repeat', 1))):
+        lo, le = Rec(), Rec()
+        if case.get('direct'):
+            # PythonAction.execute called directly with live stream objects that are *not* sys.stdout/sys.stderr
+            if t is not None:
+                t.init_options()
+            with Swapped() as sw:
+                v = case.get('v')
+                live = (None, None) if v == 0 else (None, le) if v == 1 else (lo, le)
+                ret, raised = call(lambda: act.execute(*live))
+                ident = sw.identity()
+        else:
+            with Swapped() as sw:
+                ret, raised = call(lambda: t.execute(task.Stream(case.get('v'))))
+                ident = sw.identity()
     oc, tname = outcome_of(ret, raised)
     return {'outcome': oc, 'type': tname, 'out': act.out, 'err': act.err, 'result': canon_res(act.result),
             'values': canon_vals(act.values), 'O': lo.getvalue() + sw.O.getvalue(),
@@ -459,6 +465,13 @@ def _run_cmd(case):
         try:
             os.dup2(f1, 1)
             os.dup2(f2, 2)
+            if case.get('repeat', 1) > 1:
+                with Swapped():
+                    call(lambda: t.execute(task.Stream(case.get('v'))))
+                os.ftruncate(f1, 0)
+                os.lseek(f1, 0, os.SEEK_SET)
+                os.ftruncate(f2, 0)
+                os.lseek(f2, 0, os.SEEK_SET)
             with Swapped(o, e) as sw:
                 ret, raised = call(lambda: t.execute(task.Stream(case.get('v'))))
                 ident = sw.identity()
